@@ -151,9 +151,19 @@ def judge(c, impl, model):
                 if not m:
                     fs.append(Finding('O', 'C12/parse-error-without-position', cid, msg[:200]))
                 else:
-                    f_, l_ = m.group(1), int(m.group(2))
+                    f_, l_, c_ = m.group(1), int(m.group(2)), int(m.group(3))
                     if f_ not in texts or not (1 <= l_ <= texts[f_].count('\n') + 2):
                         fs.append(Finding('O', 'C12/parse-error-position-outside-file', cid, msg[:200]))
+                    else:
+                        # the position in the message is the parser's own (O1: line, 0-based column) with the column made 1-based
+                        o1 = impl.get('o1')
+                        pe = [r for r in (o1[1:] if isinstance(o1, list) else []) if tag(r) == 'perr' and r[1] == f_]
+                        count(info, 'position-cross-checked' if pe else 'position-not-cross-checked')
+                        if pe and (pe[0][2], pe[0][3] + 1) != (l_, c_):
+                            fs.append(Finding('O', 'C12/parse-error-position-differs-from-parser', cid, 'build says %d:%d, the parser reports line %d, column %d (0-based)' % (l_, c_, pe[0][2], pe[0][3])))
+                        lines_ = texts[f_].split('\n')
+                        if c_ < 1 or (l_ <= len(lines_) and c_ > len(lines_[l_ - 1]) + 2):
+                            fs.append(Finding('O', 'C12/parse-error-column-outside-line', cid, msg[:200]))
                 info['nontrivial'] = info.get('nontrivial', False)
     o2 = impl.get('o2')
     if tag(o2) == 'resolved' and len(find(o2, 'items')) - 1 >= 2:
